@@ -714,8 +714,12 @@ func c08SharedCache(c *Ctx, w2 *refgraph.World, refuse map[string]bool, g *refgr
 	// and the definitions of the root
 	if defs, ok := w2.Docs[w2.Root].Get("definitions"); ok {
 		for _, m := range defs.O {
+			// (reachability in the reference graph, not an unfolding to a fixed depth: in the thorough tier an
+			// unresolvable target more than 8 references away made this probe expect success where the library is
+			// right to fail)
 			a := w2.Unfold(w2.Root, "schema", m.V, 8)
-			probes = append(probes, probe{"definition " + m.K, m.V.Text(), strings.Contains(a, "<dangling:") || strings.Contains(a, "<bad-ref>"), false})
+			bad := strings.Contains(a, "<dangling:") || strings.Contains(a, "<bad-ref>") || reachesDangling(g, w2.Abstract(w2.Root, "schema", m.V))
+			probes = append(probes, probe{"definition " + m.K, m.V.Text(), bad, false})
 		}
 	}
 	shared := newTCache(&tracer{})
